@@ -185,6 +185,11 @@ class Translator:
                     return f"(.matvec {self._expr(recv)} {self._expr(node.args[0])})"
                 if meth == "copy" and not node.args and not node.keywords:
                     return f"(.copy {self._expr(recv)})"
+                if meth == "astype" and len(node.args) == 1 and not node.keywords and (
+                        self.dotted(node.args[0]) in ("numpy.float64", "numpy.double")
+                        or (isinstance(node.args[0], ast.Name) and node.args[0].id == "float")):
+                    # a conversion to double precision is a copy of the same real numbers
+                    return f"(.copy {self._expr(recv)})"
                 raise Untranslatable(_txt(node))
             f = self.callee(node)
             if f in ("abs", "builtin:abs") and len(node.args) == 1 and not node.keywords:
